@@ -114,8 +114,6 @@ class Agg:
 
 def match_known(known, prop, key):
     for e in known:
-        if e.get("property") and e["property"] != prop:
-            continue
         if "key" in e and e["key"] == key:
             return e
         if "key_regex" in e and re.fullmatch(e["key_regex"], key):
